@@ -50,12 +50,12 @@ check('C08',
   'DESIGN.md 5 C08')
 check('C09',
   'bounded exhaustive enumeration of panic positions, values, hook behaviours and follow-up requests with a fresh-router twin as oracle',
-  'Every chain shape n<=3 (thorough 4) x split x panic position x {before/after/without Next} x panic value x hook variant x PanicsHandler x committed-before-panic, and panics inside NotFound/NotAllowed/OnError handlers: containment (no escape with a hook, identical value re-panics without), hook runs once and sees the value, nothing starts after the panic, exactly one WriteHeader with the hook status/body; then each of 15 follow-up request kinds must observe what it observes on a router that never saw the panic.',
+  'Every chain shape n<=3 (thorough 5) x split x panic position x {before/after/without Next} x panic value x hook variant x PanicsHandler x committed-before-panic, and panics inside NotFound/NotAllowed/OnError handlers: containment (no escape with a hook, identical value re-panics without), hook runs once and sees the value, nothing starts after the panic, exactly one WriteHeader with the hook status/body; then each of 15 follow-up request kinds must observe what it observes on a router that never saw the panic.',
   'For the in-chain PanicsHandler middleware only non-escape and healthy follow-ups are asserted.',
   'DESIGN.md 5 C09')
 check('C10',
   'bounded exhaustive enumeration of request histories with a fresh-router twin as differential oracle',
-  'All histories of length <=3 (thorough 4) over 15 request kinds (every context mutation a handler can perform, 404, 405, panic, HandleContext re-dispatch, nested ServeHTTP, Copy) x 8 router configurations: the probe snapshot (Data, Params, Errors, abort state, status, length, chain length, writer and request identity) and the response of the last request equal those of the same request issued first on a fresh identical router. Reuse of a pooled context is counted by pointer identity (all but the first request of a history run on a reused context).',
+  'All histories of length <=3 (thorough 4-5) over 15 request kinds (every context mutation a handler can perform, 404, 405, panic, HandleContext re-dispatch, nested ServeHTTP, Copy) x 8 router configurations: the probe snapshot (Data, Params, Errors, abort state, status, length, chain length, writer and request identity) and the response of the last request equal those of the same request issued first on a fresh identical router. Reuse of a pooled context is counted by pointer identity (all but the first request of a history run on a reused context).',
   'Uses the real sync.Pool (reuse is observed, not forced); the controlled pool of C03 forces it.',
   'DESIGN.md 5 C10')
 check('C12',
